@@ -38,9 +38,21 @@ static std::string tuple_str(const std::vector<std::vector<int> >& t) {
     return s;
 }
 
+template <typename RT> static const char* rank_type_name();
+template <> const char* rank_type_name<long>() { return "long"; }
+template <> const char* rank_type_name<size_t>() { return "size_t"; }
+template <> const char* rank_type_name<int>() { return "int"; }
+template <> const char* rank_type_name<unsigned>() { return "unsigned"; }
+template <> const char* rank_type_name<long long>() { return "long long"; }
+template <> const char* rank_type_name<unsigned long long>() { return "unsigned long long"; }
+static uint64_t g_aliased = 0;
+
 //! tuple given as keys; T is int or KV; order ascending or descending
-template <typename T, typename Cmp>
-static void check_tuple(const std::vector<std::vector<int> >& keys, Cmp cmp, const char* tname, bool selection) {
+//! RT is the caller's rank type (the functions are templates over it: signed and unsigned, 32 and 64 bit)
+template <typename T, typename RT, typename Cmp>
+static void check_tuple(const std::vector<std::vector<int> >& keys, Cmp cmp, const char* tname0, bool selection) {
+    const std::string tname_s = std::string(tname0) + "/rank:" + rank_type_name<RT>();
+    const char* tname = tname_s.c_str();
     const size_t m = keys.size();
     std::vector<std::vector<T> > store(m);
     std::vector<std::pair<T*, T*> > seqs(m);
@@ -70,7 +82,8 @@ static void check_tuple(const std::vector<std::vector<int> >& keys, Cmp cmp, con
         if (rank > 0) ++expect[all[rank - 1].seq];
         std::vector<T*> offs(m, nullptr);
         verif::context() = "multisequence_partition";
-        tlx::multisequence_partition(seqs.begin(), seqs.end(), rank, offs.begin(), cmp);
+        const RT rk = (RT)rank;
+        tlx::multisequence_partition(seqs.begin(), seqs.end(), rk, offs.begin(), cmp);
         verif::context() = "";
         ++g_pairs;
         bool tie = rank > 0 && rank < N && !cmp(mk(all[rank - 1].key), mk(all[rank].key));
@@ -109,9 +122,22 @@ static void check_tuple(const std::vector<std::vector<int> >& keys, Cmp cmp, con
             return;
         }
         if (selection && rank < N) {
-            long offset = -77;
+            long offset;
             verif::context() = "multisequence_selection";
-            T v = tlx::multisequence_selection<T>(seqs.begin(), seqs.end(), rank, offset, cmp);
+            T v;
+            bool aliased = rank % 3 == 2;
+            if (aliased) {
+                // rank is taken by const reference and offset by reference: "select rank r, r := its offset"
+                RT r = rk;
+                v = tlx::multisequence_selection<T>(seqs.begin(), seqs.end(), r, r, cmp);
+                offset = (long)r;
+                ++g_aliased;
+            }
+            else {
+                RT off = (RT)77;
+                v = tlx::multisequence_selection<T>(seqs.begin(), seqs.end(), rk, off, cmp);
+                offset = (long)off;
+            }
             verif::context() = "";
             long first = rank;
             while (first > 0 && !cmp(mk(all[first - 1].key), mk(all[rank].key))) --first;
@@ -120,7 +146,7 @@ static void check_tuple(const std::vector<std::vector<int> >& keys, Cmp cmp, con
             else if (offset != rank - first) w = "offset";
             if (!w.empty()) {
                 verif::fail(std::string("C08:multisequence_selection:") + w,
-                            std::string(tname) + " rank " + std::to_string(rank) + ": value key " + std::to_string(key_of(v)) +
+                            std::string(tname) + " rank " + std::to_string(rank) + (aliased ? " (one variable passed as rank and as offset)" : "") + ": value key " + std::to_string(key_of(v)) +
                             " offset " + std::to_string(offset) + ", expected key " + std::to_string(all[rank].key) +
                             " offset " + std::to_string(rank - first) + "; sequences " + tuple_str(keys));
                 return;
@@ -130,15 +156,20 @@ static void check_tuple(const std::vector<std::vector<int> >& keys, Cmp cmp, con
 }
 
 static void check_all_types(std::vector<std::vector<int> > keys, bool descending) {
-    if (descending) {
-        for (auto& v : keys) std::reverse(v.begin(), v.end());
-        check_tuple<int>(keys, std::greater<int>(), "int/greater", true);
-        check_tuple<KV>(keys, KVGreater(), "KV/greater", true);
+    static unsigned turn = 0;
+    ++turn;
+    if (descending) for (auto& v : keys) std::reverse(v.begin(), v.end());
+#define BOTH(RTI, RTK)                                                                         \
+    if (descending) { check_tuple<int, RTI>(keys, std::greater<int>(), "int/greater", true);   \
+                      check_tuple<KV, RTK>(keys, KVGreater(), "KV/greater", true); }           \
+    else { check_tuple<int, RTI>(keys, std::less<int>(), "int/less", true);                    \
+           check_tuple<KV, RTK>(keys, KVLess(), "KV/less", true); }
+    switch (turn % 3) {
+    case 0: BOTH(long, size_t) break;
+    case 1: BOTH(unsigned long long, int) break;
+    default: BOTH(unsigned, long long) break;
     }
-    else {
-        check_tuple<int>(keys, std::less<int>(), "int/less", true);
-        check_tuple<KV>(keys, KVLess(), "KV/less", true);
-    }
+#undef BOTH
 }
 
 // all sorted sequences of length 1..maxlen over {0,1,2}
@@ -208,12 +239,13 @@ static void mode_rand(Rng& rng, uint64_t) {
 
 static void run_case(Rng& rng, uint64_t index) {
     std::string mode = verif::param("mode", "rand");
-    uint64_t p0 = g_pairs, t0 = g_tied;
+    uint64_t p0 = g_pairs, t0 = g_tied, a0 = g_aliased;
     if (mode == "exh") mode_exh(index, 0, 4, 500);
     else if (mode == "exh4") mode_exh(index, 4, 3, 2000);
     else mode_rand(rng, index);
     verif::count("tuple_rank_pairs", g_pairs - p0);
     verif::count("pairs_with_tie_across_split", g_tied - t0);
+    verif::count("selections_with_rank_and_offset_in_one_variable", g_aliased - a0);
 }
 
 static void init() { verif::property_id() = "C08"; }
